@@ -106,8 +106,12 @@ namespace cppcms {
 					page *p=(page *)malloc(size + sizeof(page));
 					if(!p)
 						throw std::bad_alloc();
-					p->next = pages_->next;
-					pages_->next = p;
+					// the last page of the list is the one clear() keeps and reuses as
+					// a page of page_size_ bytes: a page of any other size must never
+					// get there, so it is linked in front of the list and not after
+					// its first page (that may be the last one as well)
+					p->next = pages_;
+					pages_ = p;
 					return p->data;
 				}
 				if(size > free_space_) {
